@@ -383,8 +383,19 @@ def run(mod, tier, seed, replay=None):
             mod.replay(ctx, json.loads(Path(replay).read_text()))
         elif ok or getattr(mod, "CHECK_WITHOUT_BUILD", False):
             mod.check(ctx)
-        elif hasattr(mod, "search"):
-            mod.search(ctx)
+        else:
+            # A proof obligation no longer builds.  That is not yet a violation: search for a concrete
+            # failing input.  If the driver (model + spec, no proofs) still builds, the ordinary check
+            # -- which evaluates the property on the real code for every input -- is that search.
+            drivers = [t for t in mod.LEAN_TARGETS if t.startswith("Drivers.")]
+            ok_drv = bool(drivers) and ctx.lake_build(drivers)[0]
+            if hasattr(mod, "search"):
+                mod.search(ctx)
+            if ok_drv and not ctx.failures:
+                try:
+                    mod.check(ctx)
+                except BrokenCheck as e:
+                    ctx.note("check after broken build could not run: " + str(e)[:300])
         # 5. verdict
         open_k = {f["signature"]: f for f in ctx.known_findings("open")}
         seen_known = set()
